@@ -153,6 +153,12 @@ func buildQueries(tier string) ([]qcase, map[string]int) {
 		out = append(out, qcase{n, n.Text(), fam})
 		counts[fam]++
 	}
+	// regexes shaped after the search shortcuts: literal prefix only, constant suffix only, fixed length
+	// with a suffix that overlaps itself, prefix and suffix, suffix behind a loop, alternatives of
+	// different length behind/before literals
+	shortcut := []string{"[ab]aa", ".aa", "[ab]ab", "[ab]-a", "(?:a|b)aa", "[ab]{2}aa", ".ba", "[^a]aa", "[ab]a", ".a.a", "a.*aa", "aa.*a", "a[ab]a", "a.a", "ab?a", "(?:ab?|-)a",
+		"(?:a*|b-)a", "[ab]*aa", "a+ba", "-a*a", "aa[ab]", "[ab]aa[ab]", "(?:aa|b)a", "a{2,3}b", "[ab]{1,2}-a"}
+	all = append(all, shortcut...)
 	for _, re := range all {
 		add("single cdata", ref.A(dataAtom("cdata", "", re)))
 		add("negated sdata", ref.Not(ref.A(dataAtom("sdata", "", re))))
@@ -202,7 +208,7 @@ func Run(tier string) int {
 	}
 	defer os.RemoveAll(dir)
 	budget := 100 * time.Second
-	words := []string{"a", "b", "-", "ab", "ba", "a-"}
+	words := []string{"a", "b", "-", "ab", "ba", "a-", "aa"}
 	if tier == "thorough" {
 		budget = 14 * time.Minute
 		words = []string{"a", "b", "-", "ab", "ba", "a-", "-b", "aa", "A"}
